@@ -250,7 +250,7 @@ func init() {
 	register(&Prop{
 		ID: "C15", Engine: "server",
 		Generate: genC15, Decode: decodeC15, Execute: execC15,
-		Config:      func(any) simrt.Config { return simrt.Config{MaxSteps: 200000, IdleProbe: 4 * time.Second} },
+		Config:      func(any) simrt.Config { return simrt.Config{MaxSteps: 60000, IdleProbe: 4 * time.Second} },
 		Runs:        clientRuns(150000, 8000000),
 		Floors:      []Floor{{Name: "two-connection-scripts", Sweep: false, Count: func(t string) int { return len(c15Floor(t)) }, Scenario: func(t string, i int) any { return c15Floor(t)[i] }}},
 		Rule:        "one evaluation = one simulated run of 1-4 connections (or direct concurrent HandleRequest callers) each issuing 1-3 requests of 1-5 items whose scripted handlers read, store (unique value per store), clear or resolve the ID placeholder and yield to the scheduler in between; distinct = distinct event-log hashes among runs with at least one preemption or chunked read",
